@@ -338,7 +338,8 @@ func (vc *VC) typingFact(tm *Term) string {
 			if vc.mode == "bv" {
 				return vc.le(vc.intLit(0, 64), "(str-len "+tm.S+")", true)
 			}
-			return "(and (<= 0 (str-len " + tm.S + ")) (<= (str-len " + tm.S + ") 9223372036854775807) (<= 0 (str-off " + tm.S + ")))"
+			// Go's runtime cannot allocate objects larger than 2^48 bytes (maxAlloc, 64-bit platforms)
+			return "(and (<= 0 (str-len " + tm.S + ")) (<= (str-len " + tm.S + ") 281474976710656) (<= 0 (str-off " + tm.S + ")))"
 		}
 	case *types.Slice:
 		z := vc.intLit(0, 64)
@@ -349,7 +350,7 @@ func (vc *VC) typingFact(tm *Term) string {
 			if sz < 1 {
 				sz = 1
 			}
-			ub = "(<= (s-cap " + tm.S + ") " + new(big.Int).Div(big.NewInt(9223372036854775807), big.NewInt(sz)).String() + ")"
+			ub = "(<= (s-cap " + tm.S + ") " + new(big.Int).Div(big.NewInt(281474976710656), big.NewInt(sz)).String() + ")"
 		}
 		return fmt.Sprintf("(and %s %s %s %s (>= (rid (s-ref %s)) 0))", vc.le(z, "(s-off "+tm.S+")", true), vc.le(z, "(s-len "+tm.S+")", true),
 			vc.le("(s-len "+tm.S+")", "(s-cap "+tm.S+")", true), ub, tm.S)
